@@ -4,8 +4,9 @@ case = {"raw": [kind, ...], "form": str, "rel": bool, "rib": bool, "cut": int|No
         "start": int, "enf": bool}
 """
 import itertools
+from fractions import Fraction
 import numpy as np, pandas as pd
-from common import canon_err, show_ints, show_bool
+from common import canon_err, show_ints, show_bool, show_rats
 
 PROP = "C02"
 LEAN_MODULE = "SkVerif.Props.C02"
@@ -27,6 +28,8 @@ OBLIGATIONS = [
     "SkVerif.C02.mk_rejects_duplicates",
     "SkVerif.C02.mk_rejects_unsupported",
     "SkVerif.C02.mk_rejects_fractional",
+    "SkVerif.C02.mk_rejects_any_fractional_float",
+    "SkVerif.C02.mk_whole_floats",
     "SkVerif.C02.checkFh_rejects_empty",
     "SkVerif.C02.checkFh_accepts_nonempty",
     "SkVerif.C02.pyRange_mem",
@@ -64,6 +67,13 @@ def _build(raw, form):
         return list(vs)
     if k == "range":
         return pd.RangeIndex(raw[1], raw[2], raw[3])
+    if k == "floats":
+        qs = [Fraction(a, b) for a, b in raw[1]]
+        if form == "array":
+            return np.array([float(q) for q in qs], dtype="float64")
+        if form == "mixed":
+            return [int(q) if q.denominator == 1 else float(q) for q in qs]
+        return [float(q) for q in qs]
     if k == "frac":
         return {"list": [1, 2.5], "array": np.array([0.5, 2.0])}.get(form, [1.5])
     if k == "unsup":
@@ -84,6 +94,8 @@ def to_line(c):
         r = "ints:" + show_ints(raw[1])
     elif k == "range":
         r = "range:%d:%d:%d" % tuple(raw[1:4])
+    elif k == "floats":
+        r = "floats:" + show_rats([Fraction(a, b) for a, b in raw[1]])
     else:
         r = k
     return "C02 all %s %s %s %s %d %s" % (r, show_bool(c["rel"]), show_bool(c["rib"]),
@@ -159,6 +171,12 @@ def oracle(c, out):
     raw = c["raw"]
     k = raw[0]
     site = "fh"
+    if k == "floats":
+        qs = [Fraction(a, b) for a, b in raw[1]]
+        if all(q.denominator == 1 for q in qs):
+            k, raw = "ints", ["ints", [int(q) for q in qs]]     # whole-number floats are the integers they are
+        else:
+            k = "frac"                                          # one fractional value, however small or large: rejected
     if k in ("frac", "unsup", "2d") or not c["rib"] or (k == "ints" and len(set(raw[1])) != len(raw[1])):
         if not d["mk"].startswith("E:"):
             fails.append((site + ":malformed-accepted:" + k, "malformed horizon %r accepted: %s" % (raw, d["mk"])))
@@ -298,6 +316,24 @@ def _gen_cases(tier, rng):
         cases.append({"raw": ["ints", vs], "form": rng.choice(INT_FORMS), "rel": rng.random() < 0.6, "rib": True,
                       "cut": rng.choice([None, None] + [rng.randrange(-mag, mag) for _ in range(8)]),
                       "start": rng.randrange(-mag, mag), "enf": rng.random() < 0.3})
+    # floats: whole numbers and fractional parts at every magnitude a float64 can carry exactly
+    # (a tolerance-based "is it whole" test accepts a fraction that is small relative to the value)
+    nf = 80 if tier == "quick" else 1500
+    for _ in range(nf):
+        bits = rng.choice([2, 3, 10, 17, 20, 31, 40, 48])
+        size = rng.randrange(1, 5)
+        vs = rng.sample(range(-(2 ** bits), 2 ** bits + 1), min(size, 2 ** bits))
+        qs = [[v, 1] for v in vs]
+        if rng.random() < 0.75:
+            i = rng.randrange(len(qs))
+            j = rng.randrange(1, max(2, 52 - bits))                 # value + k/2^j is exact in float64
+            den = 2 ** j
+            num = rng.choice([1, den - 1, rng.randrange(1, den)])
+            f = Fraction(vs[i]) + Fraction(num, den) * rng.choice([1, -1])
+            qs[i] = [f.numerator, f.denominator]
+        mag = 2 ** bits
+        cases.append({"raw": ["floats", qs], "form": rng.choice(["list", "array", "mixed"]), "rel": rng.random() < 0.6, "rib": True,
+                      "cut": rng.choice([None, 0, rng.randrange(-mag, mag)]), "start": rng.randrange(-mag, mag), "enf": rng.random() < 0.3})
     # malformed stream
     for form in ("list", "array"):
         cases.append({"raw": ["frac"], "form": form, "rel": True, "rib": True, "cut": 0, "start": 0, "enf": False})
@@ -327,6 +363,11 @@ def shrink(c):
         for i, v in enumerate(vs):
             if abs(v) > 1:
                 yield dict(c, raw=["ints", vs[:i] + [v // 2] + vs[i + 1:]])
+    if raw[0] == "floats":
+        qs = raw[1]
+        for i in range(len(qs)):
+            if len(qs) > 1:
+                yield dict(c, raw=["floats", qs[:i] + qs[i + 1:]])
     if c["cut"] not in (None, 0):
         yield dict(c, cut=c["cut"] // 2)
     if c["start"] != 0:
